@@ -53,7 +53,11 @@ def g7_reviewed(f_node, qual, expr):
     return None
 
 
+_REPO = [None]
+
+
 def findings(repo, prog):
+    _REPO[0] = repo
     out = []
     for f in prog.fns.values():
         if f.mod.name.endswith('__main__'):
@@ -63,6 +67,7 @@ def findings(repo, prog):
         _g6(f, out)
         _g7(f, out)
         _g9(f, out)
+        _g10(f, out)
     _g1(repo, prog, out)
     _g2(repo, prog, out)
     _g3(repo, prog, out)
@@ -677,6 +682,197 @@ def _g7(f, out):
                            '(e.g. a macro taken as a single-token argument has no arguments)'
                            % (base, k, [('' if p else 'not ') + short(t, 40) for t, p in facts][-3:]),
                            '%s: %s' % (f.qual, unparse(x))))
+
+
+# --------------------------------------------------------------------------- G10
+
+
+def _module_dict_literals(mod):
+    d = getattr(mod, '_g10_dicts', None)
+    if d is None:
+        d = {}
+        for st in mod.tree.body:
+            if isinstance(st, ast.Assign) and len(st.targets) == 1 and isinstance(st.targets[0], ast.Name) \
+                    and isinstance(st.value, ast.Dict) and st.value.keys and \
+                    all(isinstance(k, ast.Constant) for k in st.value.keys):
+                d[st.targets[0].id] = {k.value for k in st.value.keys}
+        # a table that is also written to (cache) is not a fixed table
+        for n in ast.walk(mod.tree):
+            if isinstance(n, ast.Subscript) and isinstance(n.ctx, (ast.Store, ast.Del)) and \
+                    isinstance(n.value, ast.Name):
+                d.pop(n.value.id, None)
+            if isinstance(n, ast.Call) and call_name(n) in ('update', 'setdefault', 'pop', 'clear') and \
+                    call_recv(n) is not None and isinstance(call_recv(n), ast.Name):
+                d.pop(call_recv(n).id, None)
+        mod._g10_dicts = d
+    return d
+
+
+def _g10(f, out):
+    """D[k] on a fixed module-level table with a key that is not a literal member: KeyError
+    unless a membership test dominates or KeyError is caught around it"""
+    dicts = _module_dict_literals(f.mod)
+    if not dicts:
+        return
+    for x in walk_fn(f.node):
+        if not (isinstance(x, ast.Subscript) and isinstance(x.ctx, ast.Load)
+                and isinstance(x.value, ast.Name) and x.value.id in dicts):
+            continue
+        keys = dicts[x.value.id]
+        k = x.slice
+        if isinstance(k, ast.Constant):
+            if k.value in keys:
+                continue
+            out.append(Finding('G10', 'REFUTED', f.mod, enclosing_stmt(x) or x, f.key,
+                               'the fixed table %s has no key %r: KeyError' % (x.value.id, k.value),
+                               '%s: %s' % (f.qual, unparse(x))))
+            continue
+        kt = unparse(k)
+        facts = atomic_facts(x)
+        if any((pol and unparse(t) == '%s in %s' % (kt, x.value.id)) or
+               ((not pol) and unparse(t) == '%s not in %s' % (kt, x.value.id)) for t, pol in facts):
+            continue
+        caught = False
+        for p_ in parents(x):
+            if isinstance(p_, ast.Try) and any(
+                    h.type is None or any(nm in unparse(h.type) for nm in ('KeyError', 'LookupError', 'Exception'))
+                    for h in p_.handlers) and any(x is n_ for b in p_.body for n_ in ast.walk(b)):
+                caught = True
+        if caught:
+            continue
+        # value set of the key: literals passed at every in-package call site (through
+        # parameters, defaults and closure variables); a provably covered key is fine, an
+        # unknown value set is not reported (only definite misses are)
+        vals = _expr_values(_REPO[0], k, f.node, 0) if _REPO[0] is not None else None
+        if vals is None:
+            continue
+        missing = sorted(str(v) for v in vals if v not in keys)
+        if not missing:
+            continue
+        out.append(Finding('G10', 'REFUTED', f.mod, enclosing_stmt(x) or x, f.key,
+                           'the fixed table %s (keys %s) is subscripted with %s, which takes the values '
+                           '%s at the call sites in the package, without a membership test and without '
+                           'catching KeyError: KeyError (sibling tables are read with .get and a default)'
+                           % (x.value.id, sorted(map(str, keys))[:8], kt, missing[:8]),
+                           '%s: %s' % (f.qual, unparse(x))))
+
+
+def _all_calls(repo):
+    idx = getattr(repo, '_g10_calls', None)
+    if idx is None:
+        idx = {}
+        for mod in repo.modules.values():
+            for n in ast.walk(mod.tree):
+                if isinstance(n, ast.Call):
+                    idx.setdefault(call_name(n), []).append(n)
+        repo._g10_calls = idx
+    return idx
+
+
+def _expr_values(repo, e, fnode, depth):
+    """set of constants the expression can evaluate to inside function fnode, or None"""
+    if depth > 14:
+        return None
+    if isinstance(e, ast.Constant):
+        return {e.value}
+    if isinstance(e, ast.IfExp):
+        a, b = _expr_values(repo, e.body, fnode, depth + 1), _expr_values(repo, e.orelse, fnode, depth + 1)
+        return None if a is None or b is None else a | b
+    if not isinstance(e, ast.Name) or fnode is None or isinstance(fnode, ast.Module):
+        return None
+    name = e.id
+    args = fnode.args
+    allp = list(getattr(args, 'posonlyargs', [])) + list(args.args) + list(args.kwonlyargs)
+    pnames = [a.arg for a in allp]
+    # re-bound inside the function: unknown
+    for n in walk_fn(fnode):
+        if isinstance(n, ast.Name) and n.id == name and isinstance(n.ctx, (ast.Store, ast.Del)):
+            if name in pnames:
+                return None
+            # single constant assignment of a local
+            defs = [s_ for s_ in walk_fn(fnode) if isinstance(s_, ast.Assign) and any(
+                isinstance(t, ast.Name) and t.id == name for t in s_.targets)]
+            if len(defs) == 1:
+                return _expr_values(repo, defs[0].value, fnode, depth + 1)
+            return None
+    if name in pnames:
+        return _param_values(repo, fnode, name, depth + 1)
+    # free variable: parameter / local of an enclosing function
+    outer = enclosing_func(fnode)
+    if outer is not None:
+        return _expr_values(repo, e, outer, depth + 1)
+    return None
+
+
+def _param_values(repo, fnode, pname, depth):
+    if isinstance(fnode, ast.Lambda):
+        return None
+    args = fnode.args
+    pos = [a.arg for a in list(getattr(args, 'posonlyargs', [])) + list(args.args)]
+    is_method = bool(pos) and pos[0] in ('self', 'cls')
+    # default value
+    default = None
+    if pname in pos:
+        i = pos.index(pname)
+        nd = len(args.defaults)
+        if i >= len(pos) - nd:
+            default = args.defaults[i - (len(pos) - nd)]
+    else:
+        for a, d in zip(args.kwonlyargs, args.kw_defaults):
+            if a.arg == pname:
+                default = d
+    cls = getattr(fnode, '_parent', None)
+    names = {fnode.name}
+    if fnode.name == '__init__' and isinstance(cls, ast.ClassDef):
+        names = {cls.name}
+    sites = []
+    calls = _all_calls(repo)
+    for nm in names:
+        sites += calls.get(nm, [])
+    if fnode.name == '__init__':
+        # super().__init__(...) in subclasses
+        for c in calls.get('__init__', []):
+            if isinstance(c.func, ast.Attribute) and isinstance(c.func.value, ast.Call) and \
+                    call_name(c.func.value) == 'super':
+                sites.append(c)
+    if not sites:
+        # a nested function that is only handed out as a value (a table callable): it is called
+        # with the fixed argument names checked by C07 R07f, so another parameter keeps its default
+        if default is not None and enclosing_func(fnode) is not None:
+            return _expr_values(repo, default, enclosing_func(fnode), depth + 1)
+        return None
+    out = set()
+    omitted = False
+    for c in sites:
+        if any(isinstance(a, ast.Starred) for a in c.args):
+            return None
+        a = None
+        for k in c.keywords:
+            if k.arg == pname:
+                a = k.value
+        if a is None and pname in pos:
+            i = pos.index(pname) - (1 if is_method else 0)
+            if 0 <= i < len(c.args):
+                a = c.args[i]
+        if a is None:
+            if any(k.arg is None for k in c.keywords):
+                # **kwargs forwarded: the value may come from the forwarding function's callers
+                omitted = True
+                continue
+            omitted = True
+            continue
+        v = _expr_values(repo, a, enclosing_func(c), depth + 1)
+        if v is None:
+            return None
+        out |= v
+    if omitted:
+        if default is None:
+            return out or None
+        v = _expr_values(repo, default, enclosing_func(fnode), depth + 1)
+        if v is None:
+            return None
+        out |= v
+    return out
 
 
 # --------------------------------------------------------------------------- G9
